@@ -1,8 +1,13 @@
-"""C02 — Red-black trees satisfy the red-black rules after every insert and erase"""
-from areas import tree
+"""C02 — Red-black trees satisfy the red-black rules after every insert and erase
+
+Two layers: the functional model (areas/tree.py: colour rules, height bound)
+and the link-level model (areas/treel.py: the fix-up loops navigating through
+parent links refine the functional model; every child's parent link proved)."""
+from areas import tree, treel
 
 
 def run(chk):
+    treel.link_level_run(chk)
     return tree.run_check(chk, "C02")
 
 
